@@ -82,6 +82,27 @@ def _helpers(sk, but):
     return {v[0]: (v[1], v[2]) for k, v in cache.items() if v and k != but}
 
 
+def _named_constants(ctx, sk, rel):
+    """{name: tokens of its number} for the numeric constants visible in the file: its own file scope, the class header and the
+    macro headers of the back-end (`static const int kLevels = 5;`, `#define NAUNET_MAX_LEVEL 5`).  A constant named
+    instead of written out is the same number; the names this module gives a meaning itself stay names."""
+    outside, last = [], 0
+    for f in sk.funcs:
+        outside.append(sk.clean[last:f.start])
+        last = f.end
+    outside.append(sk.clean[last:])
+    texts = []
+    inc = rel.rsplit("/src/", 1)[0] + "/include/"
+    for h in ("naunet/templates/base/cpp/include/naunet_macros.h.j2", inc + "naunet_macros.h.j2", inc + "naunet_constants.h.j2", inc + "naunet.h.j2"):
+        if ctx.tree.exists(h):
+            texts.append(ctx.tree.read(h))
+    texts.append(_ctext(sk, ";".join(outside)))
+    vals = {}
+    for t in texts:
+        vals.update(cstmt.const_defs(t, vals))
+    return {k: cstmt.const_tokens(v) for k, v in vals.items() if k not in CONSTS and k != "NEQUATIONS"}
+
+
 def _func(ctx, rel, cfg, fname):
     sk = Skel(J.flatten(ctx.tree, rel, cfg))
     fs = sk.func(fname)
@@ -89,9 +110,13 @@ def _func(ctx, rel, cfg, fname):
         return None
     if "_c19_macros" not in sk.__dict__:
         sk._c19_macros = cstmt.macro_defs(_ctext(sk, sk.clean))
+        sk._c19_consts = _named_constants(ctx, sk, rel)
     text = _THIS.sub("", cstmt.expand_macros(_ctext(sk, fs[0].body), sk._c19_macros))
     try:
         body = cstmt.inline_calls(cstmt.parse_body(text), _helpers(sk, fname))
+        if sk._c19_consts:
+            shadow = cstmt.declared_locals(body) | set(cstmt.params_of(fs[0].header) or ())
+            body = cstmt._subst_stmt(body, {k: v for k, v in sk._c19_consts.items() if k not in shadow})
     except cstmt.CStmtError as ex:
         ctx.unrec("R1", f"{rel.split('/')[-1]}:{fname}", (rel, 0), f"statement parser: {ex}")
         return None
@@ -180,7 +205,12 @@ def _r1(ctx):
     ctx.floor("R1", "driver functions", n, 9)
 
 
-CONSTS = {"NAUNET_SUCCESS": 0, "NAUNET_FAIL": 1}
+# the two results of this API, and the return values of CVode() as <cvode/cvode.h> names them (a flag tested by name is the same test)
+CVODE_FLAGS = {"CV_SUCCESS": 0, "CV_TSTOP_RETURN": 1, "CV_ROOT_RETURN": 2, "CV_WARNING": 99, "CV_TOO_MUCH_WORK": -1, "CV_TOO_MUCH_ACC": -2,
+               "CV_ERR_FAILURE": -3, "CV_CONV_FAILURE": -4, "CV_LINIT_FAIL": -5, "CV_LSETUP_FAIL": -6, "CV_LSOLVE_FAIL": -7, "CV_RHSFUNC_FAIL": -8,
+               "CV_FIRST_RHSFUNC_ERR": -9, "CV_REPTD_RHSFUNC_ERR": -10, "CV_UNREC_RHSFUNC_ERR": -11, "CV_RTFUNC_FAIL": -12, "CV_MEM_FAIL": -20,
+               "CV_MEM_NULL": -21, "CV_ILL_INPUT": -22, "CV_NO_MALLOC": -23, "CV_BAD_K": -24, "CV_BAD_T": -25, "CV_BAD_DKY": -26, "CV_TOO_CLOSE": -27}
+CONSTS = {"NAUNET_SUCCESS": 0, "NAUNET_FAIL": 1, **CVODE_FLAGS}
 REC, RESET = (-1, -2, -3, -4), (-6,)
 NEG = (-1, -2, -3, -4, -5, -6, -7, -8, -9, -10, -11, -22, -99)      # sample of failure flags: CVODE's own range and beyond
 
@@ -338,27 +368,39 @@ def _r3_ladder(ctx, label, F, FLAG, AB, DT, T0):
     ctx.ok("R3", f"{label}:level loop", where, "one recovery ladder: the loop that re-initialises the integrator")
     # ---- the levels
     levels = None
-    lv = _loop_var(loop) if loop[0] == "for" else None
+    lpos = F.pos[id(loop)]
+    shown = "; ".join(cstmt.txt(x) for x in loop[1:4]) if loop[0] == "for" else "while (" + cstmt.txt(loop[1]) + ")"
+    lv = _loop_var(loop) if loop[0] in ("for", "while") else None
+    if lv and loop[0] == "while":
+        # the increment is a statement of the body: a `continue` of this loop would skip it
+        for s, c in cstmt.walk(loop):
+            inner = [g for g in c if g[0] in ("for", "while")]
+            if s[0] == "continue" and inner and inner[-1][3] is loop:
+                lv = None
     if lv:
-        init = [a for a in cstmt.assignments(loop[1]) if a[0] == lv[0] and a[1] == "="]
-        start = cstmt.value(init[0][2], {}) if init else None
-        if isinstance(start, int):
+        # the first value: the for-header, or (while) the one assignment before the loop; named bounds (`const int last = 5;`)
+        # are replaced by their definitions
+        if loop[0] == "for":
+            init = [(lpos, a[2]) for a in cstmt.assignments(loop[1]) if a[0] == lv[0] and a[1] == "="]
+        else:
+            init = [(i, rhs) for i, op, rhs, decl in F.defs.get(lv[0], ()) if i < lpos and op == "="][-1:]
+            init = [x for x in init if not F.written_between({lv[0]}, x[0], lpos)]
+        start = cstmt.value(F.expand(init[0][1], init[0][0]), CONSTS) if init else None
+        cond = F.expand(loop[2] if loop[0] == "for" else loop[1], lpos, keep=(lv[0],))
+        if isinstance(start, int) and not isinstance(start, bool):
             levels = []
             x = start
-            while len(levels) < 50 and cstmt.truth(loop[2], {lv[0]: x}):
+            while len(levels) < 50 and cstmt.truth(cond, {**CONSTS, lv[0]: x}):
                 levels.append(x)
                 x += 1
     if levels is None:
-        ctx.unrec("R3", f"{label}:five levels", where, "cannot enumerate the levels of `" + ("; ".join(cstmt.txt(x) for x in loop[1:4]) if loop[0] == "for" else "while (" + cstmt.txt(loop[1]) + ")") + "`")
+        ctx.unrec("R3", f"{label}:five levels", where, f"cannot enumerate the levels of `{shown}`")
         return
     LV = lv[0]
-    if levels == [1, 2, 3, 4, 5]:
-        ctx.ok("R3", f"{label}:five levels", where, "levels 1..5")
-    else:
-        ctx.unrec("R3", f"{label}:five levels", where, f"the levels are numbered {levels}, not 1..5: `{cstmt.txt(loop[1])}; {cstmt.txt(loop[2])}; {cstmt.txt(loop[3])}`")
-        if not levels:
-            return
-    lbody = loop[4]
+    if not levels:
+        ctx.unrec("R3", f"{label}:five levels", where, f"the loop `{shown}` has no iteration this rule can enumerate")
+        return
+    lbody = loop[4] if loop[0] == "for" else loop[2]
     lstm = lbody[1] if lbody[0] == "block" else [lbody]
     at = [i for i, x in enumerate(lstm) if reinit(x)]
     if len(at) != 1:
@@ -409,18 +451,20 @@ def _r3_ladder(ctx, label, F, FLAG, AB, DT, T0):
     outcome = {}
     try:
         for v in NEG:
-            pre = cstmt.Sym({DT: DT + "__entry", T0: T0 + "__entry"}, {AB: AB + "__entry"}, {FLAG: v}, stop=lambda st: st is loop)
+            pre = cstmt.Sym({DT: DT + "__entry", T0: T0 + "__entry"}, {AB: AB + "__entry"}, {**CONSTS, FLAG: v}, stop=lambda st: st is loop)
             r = pre.run(body)
             if r and r[0] == "return" and cstmt.value(r[1], CONSTS) == 1:
                 outcome[v] = ("fail", None)
                 continue
             if not r or r[0] != "stop":
                 raise cstmt.Unknown(f"with {FLAG} = {v} the ladder is not reached ({r})")
-            for lvl in (levels[0], levels[-1]) if levels else (1,):
+            for lvl in levels:
                 # at the head of a level: what the loop writes has an unknown (named) value, everything else its value from before the loop
                 arrs = {k: k + "__head" for k in W if k not in pre.s}
                 arrs.update({k: (k + "__head" if k in W else e) for k, e in pre.a.items()})
-                head = cstmt.Sym({k: (k + "__head" if k in W else e) for k, e in pre.s.items()}, arrs, {FLAG: v, LV: lvl}, stop=lambda st: st is rst)
+                head = cstmt.Sym({k: (k + "__head" if k in W else e) for k, e in pre.s.items()}, arrs, {**CONSTS, FLAG: v, LV: lvl}, stop=lambda st: st is rst)
+                if LV in head.s:            # (a `while` ladder: the level counter is a local of the function; its value in this level is known)
+                    head.s[LV] = str(lvl)
                 hs = head.clone()
                 r = head.run(lbody)
                 if r and r[0] == "return":
@@ -429,7 +473,7 @@ def _r3_ladder(ctx, label, F, FLAG, AB, DT, T0):
                         raise cstmt.Unknown(f"with {FLAG} = {v} the level leaves with `{cstmt.txt(r[1])}`")
                     res = ("fail" if val == 1 else "success", None)
                 elif r and r[0] == "stop":
-                    res = ("reach", (pre, hs, head))
+                    res = ("reach", {**(outcome[v][1] if v in outcome and outcome[v][0] == "reach" else {}), lvl: (pre, hs, head)})
                 else:
                     raise cstmt.Unknown(f"with {FLAG} = {v} the level body ends in {r} before the re-initialisation")
                 if v in outcome and outcome[v][0] != res[0]:
@@ -439,6 +483,18 @@ def _r3_ladder(ctx, label, F, FLAG, AB, DT, T0):
         ctx.unrec("R3", f"{label}:ladder", where, f"the start of a level is not understood: {ex}")
         return
     reach = sorted(v for v, o in outcome.items() if o[0] == "reach")
+    # ---- the level numbers: the loop variable, or the number derived from it that the sub-step targets are computed from
+    # (`for (lv = 0; lv < 5; lv++) { const int level = lv + 1; ..`)
+    numbering = {LV: levels}
+    for v in reach[:1]:
+        for k in set(Gt):
+            seq = [outcome[v][1][lvl][2].c.get(k) for lvl in levels]
+            if cstmt.IDENT.match(k) and k != FLAG and k not in CONSTS and all(isinstance(x, int) and not isinstance(x, bool) for x in seq):
+                numbering[k] = seq
+    if [1, 2, 3, 4, 5] in numbering.values():
+        ctx.ok("R3", f"{label}:five levels", where, "levels 1..5")
+    else:
+        ctx.unrec("R3", f"{label}:five levels", where, f"the levels are numbered {levels}, not 1..5: `{shown}`")
     lost = [v for v in REC if outcome[v][0] != "reach"]
     ctx.check(not lost, "R3", f"{label}:recoverable flags", where, "flags -1..-4 are the recoverable set", expected="-1..-4 continue with the next level",
               found=f"{lost} leave the ladder; flags that continue: {reach}")
@@ -456,11 +512,23 @@ def _r3_ladder(ctx, label, F, FLAG, AB, DT, T0):
                 return f"{k}{cstmt.OPAQUE}"
         tmp = state.clone()
         tmp.s = {**extra, **state.s}
+        if LV in tmp.s:
+            tmp.s[LV] = fin.s.get(LV, LV)
         return tmp.subst(Gt)
 
-    def verdict(key, pairs, okmsg, badmsg, expected):
-        vals = [cstmt.same_value(a, b) if kind == "scalar" else (None if cstmt.OPAQUE in a + b else a == b) for kind, a, b in pairs]
-        found = "; ".join(f"{a}  vs  {b}" for kind, a, b in pairs)[:300]
+    def at_level(e, lvl):
+        """the loop variable has a value in each level: the comparison is made for that value"""
+        return re.sub(r"\b" + re.escape(LV) + r"\b", str(lvl), e)
+
+    def verdict(key, per_level, okmsg, badmsg, expected):
+        """per_level: [(level, [(kind, a, b)])] -- every level must agree; the first level that does not is shown"""
+        vals, found = [], ""
+        for lvl, pairs in per_level:
+            pairs = [(kind, at_level(a, lvl), at_level(b, lvl)) if kind == "scalar" else (kind, a, b) for kind, a, b in pairs]
+            vs = [cstmt.same_value(a, b) if kind == "scalar" else (None if cstmt.OPAQUE in a + b else a == b) for kind, a, b in pairs]
+            if not found or (any(x is False for x in vs) and not any(x is False for x in vals)) or (any(x is not True for x in vs) and all(x is True for x in vals)):
+                found = (f"level {lvl}: " + "; ".join(f"{a}  vs  {b}" for kind, a, b in pairs))[:320]
+            vals += vs
         if any(x is False for x in vals):
             ctx.bad("R3", key, where, badmsg, expected=expected, found=found)
         elif any(x is None for x in vals):
@@ -470,26 +538,25 @@ def _r3_ladder(ctx, label, F, FLAG, AB, DT, T0):
     for v in REC:
         if outcome[v][0] != "reach":
             continue
-        pre, hs, fin = outcome[v][1]
         verdict(f"{label}:recoverable branch",
-                [("scalar", fin.subst(Gt), f"({G_in(hs, fin)}) - ({hs.expr(T0)})"), ("array", fin.a.get(AB, AB), hs.a.get(AB, AB))],
+                [(lvl, [("scalar", fin.subst(Gt), f"({G_in(hs, fin)}) - ({hs.expr(T0)})"), ("array", fin.a.get(AB, AB), hs.a.get(AB, AB))])
+                 for lvl, (pre, hs, fin) in outcome[v][1].items()],
                 f"keeps the reached state and the time still to integrate ({DT} <- {DT} - {T0})",
                 f"after a recoverable flag the level does not integrate (time left) - (time reached {T0}) from the state reached: the interval is over- or under-run while success is returned",
                 f"{AB} as reached; {DT} - {T0} still to integrate")
         break
     if outcome[-6][0] == "reach":
-        pre, hs, fin = outcome[-6][1]
         verdict(f"{label}:reset branch",
-                [("scalar", fin.subst(Gt), G_in(pre, fin)), ("array", fin.a.get(AB, AB), "ab_init_")],
+                [(lvl, [("scalar", fin.subst(Gt), G_in(pre, fin)), ("array", fin.a.get(AB, AB), "ab_init_")]) for lvl, (pre, hs, fin) in outcome[-6][1].items()],
                 "restores the initial state and the full interval",
                 "after the reset flag the level does not integrate the full interval from ab_init_ (a shortened / stale interval is restored, or the state is not the initial one): "
                 "part of the interval is skipped while success is returned",
                 "ab_init_; the whole interval as given at entry")
-        verdict(f"{label}:last sub-step reaches dt", [("scalar", G_in(pre, fin), DT + "__entry")],
+        verdict(f"{label}:last sub-step reaches dt", [(lvl, [("scalar", G_in(pre, fin), DT + "__entry")]) for lvl, (pre, hs, fin) in outcome[-6][1].items()],
                 f"with the last step the target canonicalises to {DT} (the level integrates the whole remaining time)",
                 f"the last sub-step of a level does not end at the time still to integrate", DT)
     for v in reach:
-        pre, hs, fin = outcome[v][1]
+        pre, hs, fin = outcome[v][1][levels[-1]]
         args = [cstmt.norm(a) for a in rcall[2]]
         t_arg = fin.subst(cstmt.strip_casts(rcall[2][1])) if len(rcall[2]) == 3 else "?"
         z = cstmt.same_value(t_arg, "0")
